@@ -22,6 +22,8 @@ _cache = {}
 
 def load_module(relpath):
     path = os.path.join(REPO, relpath)
+    if not os.path.exists(path) and REPO != "/repo":
+        path = os.path.join("/repo", relpath)      # partial overlay trees (selftest mutants)
     key = (path, os.stat(path).st_mtime_ns)
     if key not in _cache:
         src = open(path, encoding="utf-8").read()
